@@ -50,7 +50,7 @@ def monitor(case, il, sl):
     ops = case.ops
     if len(il) != len(ops):
         return ("implementation produced %d lines for %d ops (%s)" % (len(il), len(ops), il[-1:] or ""), "c14-crash")
-    start = int(ops[0].split()[1])
+    start = 1 if ops[0] in ("default", "new-plain") else int(ops[0].split()[1])
     nxt = start
     covered_single = set()
     max_mult = -1
@@ -100,7 +100,7 @@ def nontrivial(case, il):
     ops = case.ops[1:]
     if len(ops) < 2:
         return False
-    start = int(case.ops[0].split()[1])
+    start = 1 if case.ops[0] in ("default", "new-plain") else int(case.ops[0].split()[1])
     exp = start
     for o in ops:
         t = o.split()
@@ -131,7 +131,10 @@ def gen_valid(tier, seed):
         for start in (1, 7):
             for h in valid_histories(n, start, ("A", "N")):
                 cid += 1
-                cases.append(Case("v%d" % cid, ["new %d" % start] + [op(k, t, m) for (k, t, m) in h]))
+                ctor = "new %d" % start
+                if start == 1 and cid % 5 == 0:
+                    ctor = "default" if cid % 10 == 0 else "new-plain"      # the other two ways to make a smoother
+                cases.append(Case("v%d" % cid, [ctor] + [op(k, t, m) for (k, t, m) in h]))
     # larger n: sampled kinds, starts incl. 2^63
     big = 5 if tier == "quick" else 6
     hs = list(valid_histories(big, 1, ("A",)))
@@ -172,8 +175,51 @@ def gen_arbitrary(tier, seed):
     return cases
 
 
+def gen_deep(tier, seed):
+    """One slow tag while a large burst of later tags is confirmed individually: 70 000 confirmations
+    wait behind the gap; when it closes (by a single confirm, or by a multiple whose iterator is
+    dropped at once) every one of them comes out, in order, with its own outcome."""
+    cases = []
+    for k, (start, closer) in enumerate([(1, "single"), (1000000, "multiple-dropped")]):
+        n = 70000
+        ops = ["new %d" % start] + [op("A" if t % 3 else "N", start + t, False) for t in range(1, n + 1)]
+        if closer == "single":
+            ops.append(op("A", start, False))
+        else:
+            ops.append(op("N", start, True, 1))
+            ops.append(op("A", start + n + 1, False))
+        c = Case("deep%d" % k, ops)
+        c.meta["deep"] = (start, n, closer)
+        cases.append(c)
+    return cases
+
+
+def deep_monitor(case, il, sl):
+    start, n, closer = case.meta["deep"]
+    if len(il) != len(case.ops):
+        return ("implementation produced %d lines for %d ops (%s)" % (len(il), len(case.ops), il[-1:]), "c14-crash")
+    for i in range(1, n + 1):
+        if il[i] != "out":
+            return ("op %d (%s) emitted %r although tag %d has not been confirmed yet" % (i, case.ops[i], il[i][:60], start), "c14-early")
+    want = ["%s%d" % ("N" if closer != "single" else "A", start)] + ["%s%d" % ("A" if t % 3 else "N", start + t) for t in range(1, n + 1)]
+    if closer == "single":
+        got = il[n + 1].split()[1:]
+    else:
+        # the caller took one item and dropped the iterator: the other 70 000 were produced into the
+        # void (an early drop changes nothing for the smoother), so the next tag comes out at once
+        got = il[n + 1].split()[1:] + il[n + 2].split()[1:]
+        want = [want[0], "A%d" % (start + n + 1)]
+    if got != want:
+        k = next((j for j in range(min(len(got), len(want))) if got[j] != want[j]), min(len(got), len(want)))
+        return ("%d confirmations waited behind tag %d; when it was confirmed %d came out (expected %d), first deviation at position %d: got %s, due %s" % (
+            n, start, len(got), len(want), k, got[k:k + 2], want[k:k + 2]), "c14-deep-stash")
+    return None
+
+
 def suites(tier, seed):
     return [
+        Suite("smoother-deep", "smoother", lambda: gen_deep(tier, seed), monitor=deep_monitor, nontrivial=lambda c, il: True, compare=(tier != "quick"), shrink=False, timeout=1800,
+              rule="70 000 single confirmations (mixed ack/nack) arrive while the first tag is still outstanding (start tags 1 and 10^6); the gap is then closed by a single confirm / by a multiple whose iterator is dropped after one item: all 70 001 come out in order with their outcomes (after the dropped iterator: the next tag comes out at once) (quick: judged by the oracle only; thorough: also diffed against the Lean model, whose sorted-list stash makes that take minutes)"),
         Suite("smoother-valid", "smoother", lambda: gen_valid(tier, seed), monitor=monitor, nontrivial=nontrivial,
               spec_engine="smoother-spec", exhaustive=True,
               rule="corpus + ALL valid histories (own tag always new) with every ack/nack labelling for n<=%d tags, starts {1,7}; n=%d sampled kinds/starts {1,7,2^63}; every early-drop pattern (take 0/1/2/all per call; a third of them dropped by a panic of the consumer, i.e. during unwinding) for n<=%d" % (
